@@ -12,6 +12,7 @@ package c05
 import (
 	"bytes"
 	"fmt"
+	"strings"
 	"testing"
 	"testing/synctest"
 
@@ -97,7 +98,23 @@ func payloadFor(i, size int) []byte {
 	return b
 }
 
+// stallWatch is the real-time stall oracle (kit.Watchdog): a case takes milliseconds; one
+// that has not ended after 300 s of real time has a link worker that spins or is blocked
+// for ever - the link neither delivers later frames nor closes.
+var stallWatch *kit.Watchdog
+
+func stallClass(name string) string {
+	if i := strings.IndexAny(name, "@ ("); i > 0 {
+		return name[:i]
+	}
+	return name
+}
+
 func run(t *testing.T, sc scenario) (res result) {
+	if stallWatch != nil {
+		stallWatch.Case("link-worker-never-returns/"+stallClass(sc.name), "a link worker did not get past this fault (spinning or blocked for ever: later frames neither arrive nor is the link closed): "+sc.name)
+		defer stallWatch.Case("", "")
+	}
 	synctest.Test(t, func(t *testing.T) {
 		a, b := mkNode("A", 0), mkNode("B", 1)
 		wa, wb := kit.WatchPanics(a), kit.WatchPanics(b)
@@ -324,6 +341,8 @@ func cat(chunks ...[]byte) [][]byte { return chunks }
 func TestC05(t *testing.T) {
 	env := kit.GetEnv()
 	rep := kit.NewReport("C05", env)
+	stallWatch = rep.StartWatchdog(env, 0)
+	defer stallWatch.Stop()
 	rep.Rule = "one real established link per execution (real handshake, adversary-owned stream); frames handed to the link: message types {signed priority, regular encrypted, session data} x sizes {1,45,560,1500,9000,10000}; faults on the held link frames: every bit of every byte of a link frame (length prefix, header, ciphertext, MAC; large frames: all header/MAC bits + one bit per ciphertext byte), truncation at every offset (quick: every offset of a small frame), all words of length <= 2 (thorough 3) over {dup i, swap i/i+1, drop i}, injection of 1..64 arbitrary bytes at a frame boundary, well-framed garbage with every length prefix 0..40 and 100, splice / reflection of frames of the reverse direction (with sequence numbers the receiver has and has not seen), loss bursts of g-1 frames followed by a replay of the frame before the burst (g around the 64-frame window edge; thorough 1..70), the same frame delivered 3 times; the same kinds of faults (reflection, swaps, duplicates, loss, replay, forged frames with sequence numbers {0,1,2,255,256,2^32-1} at three positions) on a link whose counters stand 1,2,3,5 or 100 frames before the 32-bit wrap; both directions; afterwards two intact frames; non-trivial = any fault; distinct = distinct (frames, fault); states = distinct (delivered multiset, post-frames-arrived, closing) outcomes"
 	rep.Assumptions = []string{
 		"faults that destroy the stream framing (truncation, length-prefix flips, partial injections) are judged by the safety oracle only: resynchronisation of a byte stream is not something the statement promises",
